@@ -51,6 +51,11 @@ def _workload():
         import requests  # noqa: F401
     except BaseException:
         pass
+    try:  # omegaconf / jsonnet modes and actions (C03)
+        q = zoo.build({"opts": {"exit_on_error": False, "parser_mode": "omegaconf"}, "args": [{"k": "arg", "name": "x", "type": "any"}, {"k": "jsonnet", "name": "jn"}, {"k": "jsonschema", "name": "js", "schema": {"type": "object"}}]})
+        q.parse_string("x: 1\njn: {a: 1}\njs: {k: 1}\n")
+    except BaseException:
+        pass
     import shutil
 
     shutil.rmtree(d, ignore_errors=True)
